@@ -207,3 +207,95 @@ Proof.
   rewrite <- Ep. exact W.
 Qed.
 Print Assumptions C04_block_radius_codecs12.
+
+(* ------------------------------------------------------------------ *)
+(* C04 at TOOL level (Proofs/C04Inst.v), for an ARBITRARY ecc file — any byte string: markers, fields, tracks overwritten,
+   truncated, extended — an arbitrary tree, ANY decoder and any parameters.  The run is Stream's entry loop with the
+   Pipeline model as the per-block stage and any intra-ecc function.
+   (1) whatever is left in the output folder sits at the relative path of an existing input file and is that file with
+       each assembled block either kept or replaced by a value block_ok allows (equal to the input block, or matching the
+       stored hash, or an accepted decoder answer that passes the syndrome check; never altered in the default mode when
+       the block matches its stored hash), followed by the untouched rest of the input (file_ok); its length is the
+       input's when the decoder preserves lengths;
+   (2) if any processed file had a block reported unrepairable (verdict Failed), the run exits with status 1.
+   The input tree is only read (`look`).  The radius clause for the committed values is C04_block_radius_codecs12 above
+   (codecs 1/2) resp. the third-party decoder's own check (codecs 3/4, oracle). *)
+From Coq Require Import ZArith.
+From PFF Require Stream Proofs.StreamP Proofs.C03Inst Proofs.C04Inst.
+
+Theorem C04_tool_outputs_header_rs :
+  forall (algo : N) (mb : nat) hash hlen bdec (o : option byte) fast ms hdr marker delim ignore_size look intra db c outs ex p b,
+  Stream.run_h marker delim ignore_size look intra (C03Inst.blocksH_pipe algo mb hash hlen bdec o fast ms hdr) db = Stream.Done c outs ex ->
+  In (p, b) outs ->
+  exists file tr recorded, look p = Some file /\
+    let bl := hdr_blocks ms mb hlen hdr recorded file tr in
+    file_ok (option byte) hash (pchk algo mb) bdec o fast bl (fst (blocks_loop (option byte) hash (pchk algo mb) bdec o fast 0 true bl)) file b /\
+    (dec_len_hyp (option byte) bdec o -> length b = length file).
+Proof.
+  intros algo mb hash hlen bdec o fast ms hdr marker delim ignore_size look intra db c outs ex p b R Hin.
+  destruct (C04Inst.tool_outputs_header algo mb hash hlen bdec o fast ms hdr marker delim ignore_size look intra db c outs ex p b R Hin)
+    as (file & tr & rec & L & F).
+  exists file, tr, rec. split; [exact L|]. split; [exact F|]. intros DL. exact (C04Inst.file_ok_len algo mb hash bdec o fast _ file b DL F).
+Qed.
+Print Assumptions C04_tool_outputs_header_rs.
+
+Theorem C04_tool_outputs_whole_rs :
+  forall (algo : N) (mb : nat) hash hlen bdec (o : option byte) fast mu window marker delim ignore_size look intra db c outs ex p b,
+  Stream.run_w marker delim ignore_size look intra window (C03Inst.blocksW_pipe algo mb hash hlen bdec o fast mu) db = Stream.Done c outs ex ->
+  In (p, b) outs ->
+  exists file t e recorded, look p = Some file /\
+    let bl := sa_blocks (mu recorded) mb hlen file (skipn t db) (e - t) in
+    file_ok (option byte) hash (pchk algo mb) bdec o fast bl (fst (blocks_loop (option byte) hash (pchk algo mb) bdec o fast 0 true bl)) file b /\
+    (dec_len_hyp (option byte) bdec o -> length b = length file).
+Proof.
+  intros algo mb hash hlen bdec o fast mu window marker delim ignore_size look intra db c outs ex p b R Hin.
+  destruct (C04Inst.tool_outputs_whole algo mb hash hlen bdec o fast mu window marker delim ignore_size look intra db c outs ex p b R Hin)
+    as (file & t & e & rec & L & F).
+  exists file, t, e, rec. split; [exact L|]. split; [exact F|]. intros DL. exact (C04Inst.file_ok_len algo mb hash bdec o fast _ file b DL F).
+Qed.
+Print Assumptions C04_tool_outputs_whole_rs.
+
+Theorem C04_tool_exit_header_rs :
+  forall (algo : N) (mb : nat) hash hlen bdec (o : option byte) fast ms hdr marker delim ignore_size look intra db c outs ex,
+  let blocks := C03Inst.blocksH_pipe algo mb hash hlen bdec o fast ms hdr in
+  Stream.run_h marker delim ignore_size look intra blocks db = Stream.Done c outs ex ->
+  forall se p tr z file, In se (Stream.entries_spec marker db) ->
+    Stream.entry_h delim ignore_size look intra blocks (Stream.sub db (fst se) (snd se)) = Stream.EFile p (blocks tr z file) ->
+    In Failed (f_verdicts (hdr_file (option byte) hash (pchk algo mb) bdec o fast ms mb hlen hdr (Z.to_nat z) file tr)) ->
+    ex = 1.
+Proof.
+  intros algo mb hash hlen bdec o fast ms hdr marker delim ignore_size look intra db c outs ex blocks.
+  exact (C04Inst.tool_exit_header algo mb hash hlen bdec o fast ms hdr marker delim ignore_size look intra db c outs ex).
+Qed.
+Print Assumptions C04_tool_exit_header_rs.
+
+Theorem C04_tool_exit_whole_rs :
+  forall (algo : N) (mb : nat) hash hlen bdec (o : option byte) fast mu window marker delim ignore_size look intra db c outs ex,
+  let blocks := C03Inst.blocksW_pipe algo mb hash hlen bdec o fast mu in
+  Stream.run_w marker delim ignore_size look intra window blocks db = Stream.Done c outs ex ->
+  forall se p t e z file, In se (Stream.entries_spec marker db) ->
+    fst (fst (Stream.entry_w delim ignore_size look intra window blocks db (fst se) (snd se))) = Stream.EFile p (fst (blocks db t e z file)) ->
+    In Failed (f_verdicts (sa_file (option byte) hash (pchk algo mb) bdec o fast (mu (Z.to_nat z)) mb hlen file (skipn t db) (e - t))) ->
+    ex = 1.
+Proof.
+  intros algo mb hash hlen bdec o fast mu window marker delim ignore_size look intra db c outs ex blocks.
+  exact (C04Inst.tool_exit_whole algo mb hash hlen bdec o fast mu window marker delim ignore_size look intra db c outs ex).
+Qed.
+Print Assumptions C04_tool_exit_whole_rs.
+
+(* Non-vacuity of the premises: the two-file tree of C03's example with one byte of "a/b" changed and a decoder that always
+   refuses: the run ends normally, the damaged file is flagged, its first block is reported unrepairable and copied through
+   (the output is the damaged input itself), the class is Partial and the exit status 1 — computed by the model. *)
+From PFF Require Props.C03.
+Definition ex_dmg_look (p : list byte) : option (list byte) :=
+  match C03.ex_look p with
+  | Some (x :: rest) => if Bytes.byte_eqb x x68 then Some (x69 :: rest) else Some (x :: rest)
+  | r => r
+  end.
+Example C04_tool_example :
+  Stream.run_h C03.ex_marker C03.fd false ex_dmg_look (C03Inst.intra_h 3 9 18 (fun _ _ => None))
+        (C03Inst.blocksH_pipe 3 20 C03.ex_hash 4 (fun _ _ _ _ => None) None true 10 15)
+        (Stream.generate C03.ex_marker C03.fd (C03Inst.fenc_h 3 9 18) (C03Inst.track_h 3 20 C03.ex_hash 10 15) [x2a; x2a] C03.ex_tree)
+  = Stream.Done (Stream.mkC 2 1 0 1 0)
+      [([x61; x2f; x62], [x69; x65; x6c; x6c; x6f; x20; x77; x6f; x72; x6c; x64; x21; x0a; x00; xff; x31; x32])] 1.
+Proof. vm_compute. reflexivity. Qed.
